@@ -123,6 +123,16 @@ fn campaign<A: Abc>(rec: &mut Recorder, rng: &mut impl Rng, thorough: bool) {
             }
         }
     }
+    // long texts (valid, and with one invalid byte far inside): encoding, and the text shown for the result, beyond any
+    // internal block / buffer size
+    let longs: &[usize] = if thorough { &[1023, 1024, 1025, 2049, 2050, 3100, 4097, 10_000] } else { &[1024, 1025, 2050, 3100] };
+    for &l in longs {
+        let v = valid::<A>(rng, l);
+        all_backends::<A>(rec, &v, rng, "valid_long");
+        let mut b = v.clone();
+        b[l - 1 - l % 7] = invalid_byte::<A>(rng);
+        all_backends::<A>(rec, &b, rng, "one_invalid");
+    }
     // every byte value at lane 0 / last lane of a block / first tail byte / middle
     let spots: &[(usize, usize)] = if thorough {
         &[(33, 0), (33, 31), (33, 32), (70, 40), (17, 15), (17, 16), (64, 63), (31, 30), (16, 0)]
